@@ -73,7 +73,7 @@ func admitSteps(proto string, occ int) int {
 	return 1
 }
 
-var zu = map[string]bool{"conn": true, "ctrl": true, "tun": true, "map": true, "mapu": true, "code": false, "mapq": false}
+var zu = map[string]bool{"conn": true, "ctrl": true, "ctrlx": true, "tun": true, "map": true, "mapu": true, "code": false, "mapq": false}
 
 // every sequence over {0..n-1} of the given length
 func allSchedules(n, length int, f func([]int)) {
@@ -303,6 +303,51 @@ func genRacers(tier string, emit func(string)) {
 	}
 }
 
+// A3: ClientRegistry.Register with the victim's Close() as a gate: (A inside Close) x (B complete |
+// B queued | B inside its own Close), N in {2,3}, caps 1, 2, 5, occupancy cap-1 and cap, one and two
+// registrations per thread, every interleaving.
+func genCtrlX(tier string, emit func(string)) {
+	for _, limit := range []int{1, 2, 5, 0} {
+		pres := []int{limit - 1, limit}
+		if limit == 0 {
+			pres = []int{0, 3}
+		}
+		for _, pre := range pres {
+			for _, n := range []int{2, 3} {
+				for _, ops := range []string{"a", "aa"} {
+					steps := 2 * len(ops)
+					if n == 3 && len(ops) == 2 && tier == "quick" {
+						continue
+					}
+					thr := make([]thrSpec, n)
+					for i := range thr {
+						thr[i] = thrSpec{0, ops}
+					}
+					stride := 1
+					if n == 3 && len(ops) == 2 {
+						stride = 37
+					}
+					cnt := 0
+					allInterleavings(n, steps, func(s []int) {
+						cnt++
+						if cnt%stride != 1%stride {
+							return
+						}
+						// waiting and the entry step after a hand-over take extra schedule slots: drain
+						out := append([]int(nil), s...)
+						for r := 0; r < 3*len(ops)+1; r++ {
+							for t := 0; t < n; t++ {
+								out = append(out, t)
+							}
+						}
+						emit(mkCase("ctrlx", limit, pre, thr, out))
+					})
+				}
+			}
+		}
+	}
+}
+
 // A': random interleavings of N racing admissions at the boundary (scopes too large to enumerate).
 func genRandomInterleavings(r *common.Rand, count int, emit func(string)) {
 	for i := 0; i < count; i++ {
@@ -445,6 +490,7 @@ func generate(r *common.Rand, tier string, emit func(string)) {
 	emit("caps")
 	genExhaustive(tier, emit)
 	genRacers(tier, emit)
+	genCtrlX(tier, emit)
 	genMultiNode(emit)
 	genStress(tier, emit)
 	if tier == "thorough" {
